@@ -87,6 +87,21 @@ def gen_config(rng, tier):
     return init + "|" + ",".join(threads)
 
 
+def gen_crowd(rng):
+    """one slow delivery (thread 1) with 30-37 mutating operations queued behind it: queue lengths around 32 entries inside the Resource"""
+    n = rng.pick([30, 31, 32, 33, 34, 35, 36, 37])
+    threads = ["N" + rng.pick(["a/*", "a/b", "*/*"])]
+    for _ in range(n):
+        first = rng.pick(["S" + rng.pick(KEYS), "K" + rng.pick(PATTERNS)])
+        ops = [first]
+        if first[0] == "S" and rng.chance(1, 3):
+            ops.append("U0")
+        elif rng.chance(1, 4):
+            ops.append("N" + rng.pick(PATTERNS))
+        threads.append(":".join(ops))
+    return "!a/b|" + ",".join(threads)
+
+
 DFS_CONFIGS = ["a/b|Na/*,Sa/c", "a/b|Na/*:Na/b,Sa/c:U0", "a/b;a/c|Xa/*,Sa/c:U0,Ka/*", "a/b;a/c|Na/*,Ka/*,Sa/b", "-|Sa/b:U0,Na/b:Na/b",
                "a/b|Na/*,Sa/b:Sa/c", "-|Sa/b:Sa/c:U0:U1,Na/*:Na/*", "a/b|Na/*,Sa/c,Na/*,Sa/b,Na/*"]
 
@@ -207,7 +222,9 @@ def monitor(run):
         t = l.split()
         if t[0] == "cb" and int(t[2]) in unsub_ret and i > unsub_ret[int(t[2])]:
             msgs.append("observer %s was invoked (event %d) after its unsubscribe() had returned (event %d)" % (t[2], i, unsub_ret[int(t[2])]))
-    if run.status == "ok" and not linearizable(ops):
+    # crowd executions (30+ mutually concurrent operations) are beyond the brute-force order search: they are judged by the rules above
+    # and by the lock-step replay
+    if run.status == "ok" and not run.line.split()[1].startswith("!") and not linearizable(ops):
         msgs.append("no sequential order of the operations (consistent with their call/return times) explains the observers each notify delivered to: "
                     + "; ".join("%d.%d %s -> %s" % (o["t"], o["idx"], o["text"], o["cbs"] if o["text"][0] == "N" else o["res"]) for o in ops))
     return msgs
@@ -286,6 +303,8 @@ def run_tie(prop, spec, tier, seed):
         ndfs += len(rs)
     nrand = 1200 if tier == "quick" else 30000
     lines = ["run %s seed %d pts" % (gen_config(rng, tier), rng.next() % (1 << 40)) for _ in range(nrand)]
+    ncrowd = 24 if tier == "quick" else 400
+    lines += ["run %s seed %d pts" % (gen_crowd(rng), rng.next() % (1 << 40)) for _ in range(ncrowd)]
     runs += schedtie.run_batch(binary, lines)
     executed = [r for r in runs if r.status is not None]
     res.evaluations = len(executed)
